@@ -74,4 +74,15 @@ theorem rounding_stable (k : Nat) (x y : Rat)
     (hm : 7/100 ≤ |x * (10:Rat)^k - ((x * (10:Rat)^k).floor : Rat) - 1/2|)
     (hxy : |y - x| ≤ (1 / (10:Rat)^k) / 1000) : G3D.Round.roundDec k y = G3D.Round.roundDec k x :=
   G3D.Round.round_stable_eps1000 k x y hm hxy
+
+/-- the four entry points of utils/constant.py are, statement by statement, what the state machine `Tol.step` models:
+    `set_eps` stores eps and sets SIG_FIGURES = round(log10(1/eps)) (`Tol.setEps` via `sigOf`), `set_sig_figures` stores the count
+    and sets FLOAT_EPS = 1/10**SIG_FIGURES (`Tol.setSig`), the getters return the globals; `log10` is math.log10 -/
+theorem config_functions_as_modelled :
+    body_set_eps = ["global FLOAT_EPS, SIG_FIGURES", "FLOAT_EPS = eps", "SIG_FIGURES = round(log10(1 / eps))"] ∧
+    params_set_eps = ["eps"] ∧
+    body_set_sig_figures = ["global FLOAT_EPS, SIG_FIGURES", "SIG_FIGURES = sig_figures", "FLOAT_EPS = 1 / 10 ** SIG_FIGURES"] ∧
+    params_set_sig_figures = ["sig_figures"] ∧
+    body_get_eps = ["global FLOAT_EPS", "return FLOAT_EPS"] ∧ body_get_sig_figures = ["global SIG_FIGURES", "return SIG_FIGURES"] ∧
+    constantImports = ["from math import pi, log10"] := by decide
 end G3D.Props.C19
